@@ -31,8 +31,8 @@ pub static DEF: CheckDef = CheckDef {
     id: "C25",
     variants: &["graphql-transport-ws", "subscriptions-transport-ws", "graphql-transport-ws/message-stream", "subscriptions-transport-ws/faults", "graphql-transport-ws/faults"],
     run,
-    quick_runs: 20_000,
-    thorough_runs: 1_000_000,
+    quick_runs: 300_000,
+    thorough_runs: 20_000_000,
     rule: "case = real WebSocket state machine (both constructors, both protocols) over the real static harness schema as Executor; client script of 1-10 messages at drawn times (init, duplicate init, subscribe/start with fresh, live and completed ids from a 3-id pool, queries over the socket, complete/stop of live and unknown ids, ping, pong, terminate (legacy), invalid JSON, unknown type, disconnect) interleaved by the simulator with subscription events, source ends, gated on_connection_init/on_ping completions (which may fail), keep-alive expiries and a consumer that may lag so that several inputs are queued before one poll. Oracle: protocol monitor over the merged history (message consumption points, outputs, resolver starts): nothing after close/end; at most one ack and only after an init; no next/data/complete and no resolver start before the ack; every next/data id live, payload = an event delivered to that operation, once, in order; complete at most once per subscription; graphql-transport-ws close codes 4429/4401/4409/4400 right after the offending message; bounded liveness at quiescence. Non-trivial = at least one operation was live while another input was processed; distinct = distinct event-order hashes.",
     real: &["async_graphql::http::WebSocket::poll_next (both constructors)", "ClientMessage decoding", "Schema::execute_stream as Executor", "hook H1 (fixed hasher for the operation map, cfg async_graphql_verif)"],
     stub: &["client (scripted inbox)", "subscription sources (simulated channels)", "on_connection_init / on_ping callbacks (gated, may fail)", "keep-alive Timer (simulated clock)", "consumer (web-framework integration role)"],
